@@ -405,10 +405,16 @@ def c16_sites(repo_root, tier):
             for h in handlers:
                 for x in ast.walk(h):
                     in_handler.add(id(x))
+            # a path whose root is not a name (`[0]`) cannot be bound at all: that guard counts as a failed lookup
+            for n in own_nodes(fn):
+                if isinstance(n, ast.If) and ast.unparse(n.test) == "not isinstance(root, str)":
+                    for st in n.body:
+                        for x in ast.walk(st):
+                            in_handler.add(id(x))
             calls = [c for c in _calls(fn) if ast.unparse(c.func) == "self.env.undefined"]
             types_ok = all(h.type is not None and set(ast.unparse(h.type).strip("()").replace(" ", "").split(",")) <= {"KeyError", "TypeError", "IndexError"} for h in handlers)
             rets = [r for r in own_nodes(fn) if isinstance(r, ast.Return) and r.value is not None and id(r) not in in_handler]
-            plain = all(ast.unparse(r.value) in ("obj", "self.scope[name]") for r in rets)
+            plain = all(ast.unparse(r.value) in ("obj", "self.scope[name]") for r in rets)   # `return default` sits in the handlers / the non-name guard
             ok = bool(calls) and all(id(c) in in_handler for c in calls) and types_ok and plain
             note = (f"{name}: {len(calls)} undefined(...) constructions, all inside except (KeyError|TypeError|IndexError) handlers; "
                     f"the success path returns the looked-up object") if ok else f"{name}: undefined built outside a failed-lookup handler or success path returns something else"
@@ -1582,4 +1588,32 @@ def c01_blank_sites(repo_root, tier):
     """Rendering semantics include `a block that would write text is never suppressed as blank`: the blank-flag obligations of C18."""
     r = c18_sites(repo_root, tier)
     obs = [o for o in r["obligations"] if "blank" in o["oid"] or "suppression" in o["oid"]]
+    return {"obligations": obs, "samples": [], "trusted": [], "functions": [], "assumptions": []}
+
+
+# --------------------------------------------------------------------------- C02 (library calls that raise outside the error model)
+@register("C02")
+def c02_sites(repo_root, tier):
+    repo = Repo(repo_root)
+    obs = []
+    n = 0
+    for m, qual, cls, fn, parent in _all_functions(repo):
+        for call in _calls(fn):
+            if ast.unparse(call.func).endswith("datetime.fromtimestamp"):
+                n += 1
+                ok = False
+                for t in ast.walk(fn):
+                    if isinstance(t, ast.Try) and any(x is call for st in t.body for x in ast.walk(st)):
+                        names = " ".join(ast.unparse(h.type) for h in t.handlers if h.type is not None)
+                        ok = ok or ("OverflowError" in names and "OSError" in names)
+                _ob(obs, f"{m.name}:{qual}/site.fromtimestamp-guarded@{call.lineno}", ok,
+                    "datetime.fromtimestamp(x) for a data-supplied x sits in a try that handles OverflowError and OSError" if ok
+                    else "datetime.fromtimestamp(x) outside try/except (OverflowError, OSError): a large timestamp escapes as a non-Liquid exception")
+    _ob(obs, "liquid2/site.fromtimestamp.count", n >= 2, f"{n} fromtimestamp call sites")
+    # RenderContext.get[_async]: no assert on data-dependent values (a path whose root is not a name resolves to undefined)
+    cm = repo.module("liquid2.context")
+    for name in ("RenderContext.get", "RenderContext.get_async"):
+        fn = cm.find(name) if cm else None
+        ok = fn is not None and not any(isinstance(x, ast.Assert) for x in ast.walk(fn))
+        _ob(obs, f"liquid2.context:{name}/site.no-assert-on-data", ok, "variable lookup has no assert statement that template input could fail")
     return {"obligations": obs, "samples": [], "trusted": [], "functions": [], "assumptions": []}
